@@ -184,15 +184,31 @@ def revert_queue_contract(s0: int, s1: int, n: int) -> bool:
 
 
 class _FakeHash:
-    def __init__(self, outcome):
-        self.outcome = outcome  # 0 same, 1 different, 2 cannot be hashed
+    """outcome of re-hashing: 0 nothing changed (same object), 1 content differs, 2 cannot be
+    hashed, 3 content identical but stat fields changed (an EQUAL hash in a NEW object, which is
+    what FileHash.refreshed returns after a copy / touch / restore)."""
+
+    def __init__(self, outcome, ident):
+        self.outcome = outcome
+        self.ident = ident
+
+    def __eq__(self, other):
+        return isinstance(other, _FakeHash) and other.ident == self.ident
+
+    def __ne__(self, other):
+        return not self.__eq__(other)
+
+    def __hash__(self):
+        return self.ident
 
     def refreshed(self, path):
         from stepup.core.exceptions import HashError
 
         if self.outcome == 2:
             raise HashError("dir")
-        return self if self.outcome == 0 else _FakeHash(0)
+        if self.outcome == 3:
+            return _FakeHash(0, ident=self.ident)
+        return self if self.outcome == 0 else _FakeHash(0, -self.ident)
 
 
 def remove_contract(k0: int, k1: int, nfiles: int, d_isdir: bool, d_empty: bool, p_isdir: bool, p_empty: bool, rm_fails: bool) -> bool:
@@ -232,7 +248,7 @@ def remove_contract(k0: int, k1: int, nfiles: int, d_isdir: bool, d_empty: bool,
         def name(self):
             return str(self).rsplit("/", 1)[-1]
 
-    kinds = [None, _FakeHash(0), _FakeHash(1), _FakeHash(2)]
+    kinds = [None, _FakeHash(0, 101), _FakeHash(1, 102), _FakeHash(2, 103), _FakeHash(3, 104)]
     entries = [("d/e/f1", _pick(kinds, k0)), ("d/e/f2", _pick(kinds, k1))][:nfiles]
 
     class WF:
@@ -249,7 +265,7 @@ def remove_contract(k0: int, k1: int, nfiles: int, d_isdir: bool, d_empty: bool,
         fin.Path = saved
     removed = {p for op, p in log if op == "remove"}
     for p, h in entries:
-        may = h is None or h.outcome == 0
+        may = h is None or h.outcome in (0, 3)
         if (p in removed) != may:
             return False
     rmdirs = [p for op, p in log if op == "rmdir"]
